@@ -115,3 +115,28 @@ def c06_postprocessing(inp, obligation):
         return True, {"note": "the counter-model's state itself does not fail natively; a focused native search of the same clause on the real function found a failing history",
                       "history": v["case"], "violations": [v["message"][:600]]}
     return False, {"lmax_after": list(o.lmax), "violations": [], "focused_search_cases": ctx.evaluations}
+
+
+@handler("C06.raise_lmax")
+def c06_raise_lmax(inp, obligation):
+    """the real raise_lmax on a real strategy object with a real adaptive CombiScheme (levels clamped to small values so that the index-set
+    fix-point stays small): lmax[d] grows by the value, the other entries stay"""
+    import logging
+    from sparseSpACE.spatiallyAdaptiveSingleDimension2 import SpatiallyAdaptiveSingleDimensions2 as K
+    from sparseSpACE.combiScheme import CombiScheme
+    ndim, d = int(inp["ndim"]), int(inp["d"])
+    bad = []
+    for adaptive in ([bool(inp.get("dim_adaptive", True))] + [True, False]):
+        for value in sorted({max(1, min(int(inp.get("value") or 1), 3)), 1, 2}):
+            lmax0 = [max(2, min(int(x or 2), 4)) for x in inp["lmax"]]
+            o = object.__new__(K)
+            o.dim, o.lmax, o.lmin, o.dim_adaptive = ndim, list(lmax0), [1] * ndim, adaptive
+            o.combischeme = CombiScheme(ndim)
+            o.combischeme.init_adaptive_combi_scheme(max(lmax0), 1)
+            o.log_util = type("L", (), {"log_debug": lambda *a, **k: None, "log_info": lambda *a, **k: None})()
+            o.log = logging.getLogger("replay")
+            K.raise_lmax(o, d, value)
+            want = [x + (value if i == d else 0) for i, x in enumerate(lmax0)]
+            if list(o.lmax) != want:
+                bad.append("raise_lmax(d=%d, value=%d) on lmax %r (dim_adaptive=%r): lmax afterwards %r, expected %r" % (d, value, lmax0, adaptive, list(o.lmax), want))
+    return bool(bad), {"violations": bad[:6]}
